@@ -118,7 +118,10 @@ def sym_norm(x, ord=None, axis=None, keepdims=False):
         tot = S.R({})
         for v in flat:
             tot = tot + v.abs2()
-        return tot.sqrt()
+        w = tot.sqrt()
+        if E._CUR[0] is not None and hasattr(E._CUR[0], 'note_norm_parts'):
+            E._CUR[0].note_norm_parts(w, flat)  # `norm > 0` is then decided as `some entry != 0` (DESIGN 2(v))
+        return w
     if ord == np.inf:
         m = S.R({})
         for v in flat:
